@@ -11,7 +11,7 @@ CONSTANTS
   UMax <- MCUMax
   Types = {"i64", "u64", "stamp", "bytes"}
   Alphabet = {34, 45, 47, 48, 50, 51}
-  MaxLen = 5
+  MaxLen = 6
   ValsOf <- MCValsOf
 INVARIANTS TypeOK
 PROPERTIES ExactOrError RoundTrip FailKeeps
